@@ -47,7 +47,9 @@ func ForLookup(domain string) (string, error) {
 	// Side note: strings.ToLower does not support full case-folding, so it is
 	// important to apply NFC normalization first.
 	uDomain = norm.NFC.String(uDomain)
-	uDomain = strings.ToLower(uDomain)
+	// Lower-casing can leave a sequence that has a precomposed form
+	// (J + U+030C => j + U+030C, NFC is U+01F0), normalize again.
+	uDomain = norm.NFC.String(strings.ToLower(uDomain))
 	uDomain = strings.TrimSuffix(uDomain, ".")
 	return uDomain, nil
 }
